@@ -160,6 +160,8 @@ class Normalizer:
             return Rat(-z.n, z.d)
         if h in ("i2f", "ref_to"):
             return self.rat(t[1])
+        if h == "select" and len(t) == 3 and isinstance(t[1], tuple) and t[1] and t[1][0] == "store" and len(t[1]) == 4 and t[1][2] == t[2]:
+            return self.rat(t[1][3])   # reading the slot that was just written: select(store(a, i, v), i) = v
         if h in ("max", "min"):
             parts = self._extreme_parts(t)
             if len(parts) == 1:
@@ -399,6 +401,11 @@ def hazards(t, N=None, ratio=16):
                 g[0] = g[0] + (r.n if sg > 0 else -r.n)
                 for k, v in r.n.t.items():
                     g[1][k] = g[1].get(k, 0) + abs(v)
+            if h in CMP and len(x) == 3 and x[1] != x[2] and groups and all(net.is_zero() for net, _ in groups.values()) \
+                    and not (is_const(x[1]) and is_const(x[2])):
+                # `x*3.0/3.0 == x`: both sides are the same rational function, so every matcher takes one fixed outcome; in binary64
+                # the two sides round differently and the other arm runs
+                out.append("a comparison of two differently spelt forms of the same quantity: its outcome is decided by rounding, not by the formula")
             for dk, (net, mag) in groups.items():
                 for k, a in mag.items():
                     if k == ():
@@ -434,6 +441,8 @@ def hazards(t, N=None, ratio=16):
                         while isinstance(d_, tuple) and d_ and d_[0] == "gamma":
                             d_ = d_[2] if (isinstance(d_[2], tuple) and d_[2][:1] == ("i2f",)) else d_[3]
                         return not (isinstance(d_, tuple) and d_[:1] == ("i2f",))
+                    if y[0] == "c" and len(y) == 3 and isinstance(y[2], float) and (y[2] != y[2] or y[2] in (float("inf"), float("-inf"))):
+                        return True   # a non-finite literal among the factors: 0 * inf
                     return y[0] in ("sqrt", "ucall", "ln", "exp", "powi", "powf")
                 if isinstance(z, tuple) and len(z) == 3 and z[0] == "c" and z[1] in ("f64", "int") and z[2] == 0 and any(risky(y) for y in subterms(o)):
                     out.append("a product with the literal 0 whose other factor may be non-finite (0 * inf is NaN, not 0)")
